@@ -70,7 +70,7 @@ MANIFEST = {
         "design_ref": "DESIGN.md 3/C08",
     }
 }
-PROPS = ["Nstd.Buffer.Props", "Nstd.Buffer.PropsBacklog", "Nstd.Buffer.PropsRaw", "Nstd.Buffer.PropsClient", "Nstd.Buffer.PropsTr"]
+PROPS = ["Nstd.Buffer.Props", "Nstd.Buffer.PropsBacklog", "Nstd.Buffer.PropsRaw", "Nstd.Buffer.PropsClient", "Nstd.Buffer.PropsTr", "Nstd.Buffer.PropsTr2"]
 LEAN_TARGETS = PROPS + ["drv_buffer"]
 DRIVER = "drv_buffer"
 REGLEN = [8, 5]
